@@ -51,6 +51,10 @@ func stuffBits(bits *utils.BitList, wordSize int) *utils.BitList {
 			out.AddBits(word, byte(wordSize))
 		}
 	}
+	if out.Len() == 0 {
+		// the mode message cannot express zero data words: an empty message is one padding word
+		out.AddBits(mask, byte(wordSize))
+	}
 	return out
 }
 
